@@ -173,3 +173,115 @@ def _(c):
                 bad.append((q, ts, up, uses))
         return not bad, {'bad': bad}
     c.const('timestamp-is-taken-before-the-scan-starts', start_ts_before_scan, props=['C11'])
+
+
+@contract('gemato/manifest.py', '<codec-tables>', props=['C08', 'C09'])
+def _(c):
+    c.trusted = True
+
+    def _pattern(repo, attr):
+        m = repo.modules['gemato.manifest']
+        node = m.classes['ManifestPathEntry'].attrs[attr]
+        pat = ast.literal_eval(node.args[0])
+        flags = 0
+        import re
+        for a in node.args[1:]:
+            flags |= getattr(re, ast.unparse(a).split('.')[-1])
+        return re.compile(pat, flags), pat
+
+    def escaped_class(repo):
+        """complete check over the finite domain of code points: the class of characters the writer escapes
+        (regex extracted from the class attribute of the current tree) contains every character the parser
+        treats as a field separator (str.isspace), every C0/C1 control character, DEL and the backslash -- so an
+        encoded path is one whitespace-free token; and it contains nothing else that the escape forms could not carry"""
+        rx, pat = _pattern(repo, 'disallowed_path_re')
+        missing = []
+        for cp in range(0x110000):
+            ch = chr(cp)
+            must = ch.isspace() or cp <= 0x1F or 0x7F <= cp <= 0x9F or ch == '\\'
+            if must and not rx.fullmatch(ch):
+                missing.append('U+%04X' % cp)
+        return not missing, {'pattern': pat, 'code_points_checked': 0x110000, 'not_escaped': missing[:20]}
+    c.const('every-separator-control-and-backslash-character-is-escaped', escaped_class, props=['C08'])
+
+    def escape_forms(repo):
+        """the decoder's pattern accepts exactly backslash + (x HH | u HHHH | U HHHHHHHH) with hex digits of either case"""
+        rx, pat = _pattern(repo, 'escape_seq_re')
+        import re
+        ok = []
+        for form, w in (('x', 2), ('u', 4), ('U', 8)):
+            for digits in ('0' * w, 'f' * w, 'F' * w, '9' * w, 'aB' * (w // 2)):
+                m = rx.fullmatch('\\' + form + digits)
+                ok.append(m is not None and m.group(1) == form + digits)
+            for bad in ('0' * (w - 1), 'g' * w, ''):
+                m = rx.match('\\' + form + bad)
+                ok.append(m is not None and m.group(1) is None)
+        m = rx.match('\\q')
+        ok.append(m is not None and m.group(1) is None)
+        return all(ok), {'pattern': pat}
+    c.const('escape-pattern-accepts-exactly-the-three-forms', escape_forms, props=['C08', 'C09'])
+
+    def widths(repo):
+        """encode_char: thresholds and widths read from the AST (\\x 2 digits up to 0x7F, \\u 4 up to 0xFFFF, \\U 8)"""
+        m = repo.modules['gemato.manifest']
+        fn = m.classes['ManifestPathEntry'].methods['encode_char']
+        src = ast.unparse(fn)
+        want = ["cp <= 127", "'\\\\x{cp:02X}'", "cp <= 65535", "'\\\\u{cp:04X}'", "'\\\\U{cp:08X}'"]
+        missing = [w for w in want if w not in src]
+        return not missing, {'missing': missing}
+    c.const('encoder-widths-and-thresholds', widths, props=['C08'])
+
+
+@contract(RL, '<path-tests>', props=['C10', 'C01', 'C06'])
+def _(c):
+    c.trusted = True
+
+    def only_component_prefix_tests(repo):
+        """recursiveloader decides 'path lies under directory' only through util.path_starts_with /
+        path_inside_dir: the only str.startswith() calls left are the dot-file tests"""
+        m = repo.modules['gemato.recursiveloader']
+        bad = []
+        for node in ast.walk(m.tree):
+            if isinstance(node, ast.Call) and isinstance(node.func, ast.Attribute) and node.func.attr in ('startswith', 'endswith', 'find', 'index'):
+                args = [ast.unparse(a) for a in node.args]
+                if node.func.attr == 'startswith' and args == ["'.'"]:
+                    continue
+                bad.append((node.lineno, ast.unparse(node)))
+            if isinstance(node, ast.Compare) and any(isinstance(o, (ast.In, ast.NotIn)) for o in node.ops):
+                # substring tests on path strings: `x in path` with a str-typed right operand named *path*
+                r = ast.unparse(node.comparators[0])
+                if r in ('path', 'fullpath', 'relpath', 'fpath', 'dirpath', 'mpath', 'mdir'):
+                    bad.append((node.lineno, ast.unparse(node)))
+        return not bad, {'bad': bad}
+    c.const('directory-containment-only-by-whole-components', only_component_prefix_tests, props=['C10', 'C01'])
+
+    def unregistered_scan_reraises(repo):
+        """load_unregistered_manifests swallows an OSError only when it carries no errno (bz2's 'invalid data'),
+        every real I/O error (errno set) is re-raised -- read off the except clause"""
+        fn = _fn(repo, 'ManifestRecursiveLoader.load_unregistered_manifests')
+        hs = [h for t in ast.walk(fn) if isinstance(t, ast.Try) for h in t.handlers
+              if h.type is not None and ast.unparse(h.type) == 'OSError']
+        ok = len(hs) == 1 and h_body_is(hs[0], "if exc.errno is not None:\n    raise")
+        return ok, {'handlers': [ast.unparse(h) for h in hs]}
+    c.const('unregistered-manifest-scan-reraises-real-io-errors', unregistered_scan_reraises, props=['C06'])
+
+    def swallowed_exceptions(repo):
+        """the only `except` clauses of recursiveloader.py / verify.py that do not re-raise are the documented ones"""
+        allowed = {('gemato/recursiveloader.py', 'ManifestSyntaxError'), ('gemato/recursiveloader.py', 'InvalidCompressedFileExceptions'),
+                   ('gemato/recursiveloader.py', 'OSError'), ('gemato/recursiveloader.py', 'FileNotFoundError'),
+                   ('gemato/recursiveloader.py', 'ManifestInvalidPath'),
+                   ('gemato/verify.py', 'FileNotFoundError'), ('gemato/verify.py', 'OSError'), ('gemato/verify.py', 'Exception')}
+        found = []
+        for modname in ('gemato.recursiveloader', 'gemato.verify', 'gemato.hash'):
+            m = repo.modules[modname]
+            for t in ast.walk(m.tree):
+                if isinstance(t, ast.Try):
+                    for h in t.handlers:
+                        found.append((m.path, ast.unparse(h.type) if h.type is not None else '<bare>'))
+        extra = sorted(set(found) - allowed)
+        return not extra, {'unexpected_handlers': extra, 'handlers': sorted(set(found))}
+    c.const('no-new-exception-handlers-on-the-io-paths', swallowed_exceptions, props=['C06'])
+
+
+def h_body_is(handler, text):
+    return '\n'.join(ast.unparse(s) for s in handler.body if not (isinstance(s, ast.Expr) and isinstance(s.value, ast.Constant))) == text
